@@ -234,6 +234,10 @@ def step (st : St) (line : String) : St × String :=
     (match parsePt a b with
      | some p => let (c, r) := st.c.unfold st.blocks p; reply { st with c := c } (retU r)
      | none => bad)
+  | ["batch_unfold" :: pts] =>
+    (match parsePts pts with
+     | some pts => let (c, r) := st.c.batchUnfold st.blocks pts; reply { st with c := c } (retU r)
+     | none => bad)
   | [["unfold_all"]] => reply { st with c := st.c.unfoldAll st.blocks 64 } "ok"
   | [["add", ct]] =>
     (match parseCirc ct with
